@@ -329,6 +329,32 @@ func init() {
 					w.Trie(al, 1, w.Pick(7, 8))
 				},
 				Eval: func(w *fw.W, s, a string) { evalC14Seq(w, strings.TrimSuffix(s, " "), a) }},
+			{Name: "long-words-and-numbers", Space: "one word / one number of every length 1..400 and around 1024, 4096, 65536, 1 MiB and every integer constant the tree under test has in addition to the pinned tree (N-1, N, N+1), leading digit 1 / 2 / 9, alone and inside a sentence: magnitude, length and scan-offset limits that fail closed", Share: 1,
+				Run: func(w *fw.W) {
+					lens := []int{}
+					for k := 1; k <= 400; k++ {
+						lens = append(lens, k)
+					}
+					for _, n := range append([]int{1024, 4096, 65536, 1 << 20}, alpha.NewInts()...) {
+						if n > 400 && n <= 1<<21 {
+							lens = append(lens, n-1, n, n+1)
+						}
+					}
+					type it struct{ s, shape string }
+					var items []it
+					for _, k := range lens {
+						for _, d := range []string{"1", "2", "9"} {
+							num := d + strings.Repeat("7", k-1)
+							items = append(items, it{num, "long number"}, it{"parcel " + num + " delivered", "long number in a sentence"})
+						}
+						wd := strings.Repeat("qzjx_w7", k/7+1)[:k]
+						if wd[0] >= '0' && wd[0] <= '9' {
+							wd = "q" + wd[1:]
+						}
+						items = append(items, it{wd, "long word"}, it{"memo " + wd + " done", "long word in a sentence"}, it{"a b c " + wd, "long word after three words"})
+					}
+					w.Each(len(items), func(i int) { w.Item(items[i].s, items[i].shape) })
+				}, Eval: evalC14Shape},
 			{Name: "near-keyword-words", Space: "for every non-fingerprint key of the current table: the key with 1..3 digits appended, with a letter appended / prepended, with '_' inserted at every position, doubled, each in lower case, kept only when it is an admissible plain word (identifier, not a key or key component); as a single token and in 6 word/number sentences", Share: 2,
 				Run: func(w *fw.W) {
 					words := c14NearKeywords()
